@@ -464,6 +464,18 @@ theorem C17_text_reader_counts (readCost : Str → Option Rat) (lines : List Str
     ∃ l ∈ lines, classify readCost l = some (.heading g.1 g.2.length) :=
   parseBody_counts readCost lines b h g hg
 
+/-- **The reader invents nothing**, whatever the lines: each group of a text that reads back comes from a heading
+line of that text (with the right count), each of its programs from a title line of the text showing that path
+and that cost, each row of a program from a row line of the text showing that taxon, cost and spans. So when the
+harness finds the filter's result by reading a REAL report with `parseBody`, every item of it is written in the
+report. -/
+theorem C17_text_reader_sound (readCost : Str → Option Rat) (lines : List Str) (b : List (Bucket × List Section))
+    (h : parseBody readCost lines = some b) (g : Bucket × List Section) (hg : g ∈ b) :
+    (∃ l ∈ lines, classify readCost l = some (.heading g.1 g.2.length)) ∧
+      ∀ s ∈ g.2, (∃ l ∈ lines, classify readCost l = some (.title s.path s.cost)) ∧
+        ∀ r ∈ s.rows, ∃ l ∈ lines, classify readCost l = some (.row r) :=
+  parseBody_sound readCost lines b h g hg
+
 -- Non-vacuity: a report of three programs under two headings (zeno costs). `b.py` has a hidden taxon `h`
 -- (absent from its rows, present in its cost 1.375 = 5/4 + 1/8) and an imported taxon (no span: `_imported_`).
 def exampleBody : List (Bucket × List Section) :=
